@@ -9,6 +9,7 @@ LEVEL = "model_checking"
 
 def nontrivial(chk, st, rid, evs):
     fr = all_of(evs, "Free")
+    chk.count(max(0, len(fr) - 1))   # one evaluation per row whose free space was computed (run_plan counts one per run)
     for e in fr:
         if len(e["obs"]) >= 1 and len(e["segs"]) >= 1:
             chk.nontrivial("g%s-%d" % (rid, e["idx"]))
